@@ -15,9 +15,13 @@ Definition num_toQ (n : num) : Q := match n with NI z => inject_Z z | NF q => q 
 Definition num_is_int (n : num) : bool := match n with NI _ => true | NF _ => false end.
 
 (* comparison of a value computed over Q with a value the implementation
-   computed in binary64 (shipped as the exact fraction): relative 1e-12 *)
+   computed in binary64 (shipped as the exact fraction).  Explicit bound in units in the last place: every scaling
+   formula is at most three rounded binary64 operations (e.g. 1 - (1 - og) * f, lb + (ub - lb) * f) on intermediates
+   bounded by 1 + |result|, each contributing a relative error of at most 2^-53; the check allows
+   ulp_slack = 8 * 2^-53 of (1 + |a| + |b|) (about 8.9e-16, formerly 1e-12) *)
+Definition ulp_slack : Q := 8 # 9007199254740992.
 Definition approxQ (a b : Q) : bool :=
-  Qle_bool (Qabs (a - b)) ((1 # 1000000000000) * (1 + Qabs a + Qabs b)).
+  Qle_bool (Qabs (a - b)) (ulp_slack * (1 + Qabs a + Qabs b)).
 
 Definition approx_optQ (a b : option Q) : bool :=
   match a, b with
@@ -27,7 +31,8 @@ Definition approx_optQ (a b : option Q) : bool :=
   end.
 
 (* integers are compared exactly (the harness only ships factors whose exact
-   pre-truncation value is not within 1e-9 of a non-hit integer) *)
+   pre-truncation value is not within 2^-43 of a non-hit integer: 256 - (256 - og) * f has two rounded operations
+   below 512, each off by at most half an ulp = 2^-45) *)
 Definition approx_num (a b : num) : bool :=
   match a, b with
   | NI x, NI y => Z.eqb x y
@@ -63,7 +68,7 @@ Definition between (a x b : Q) : Prop := (a <= x /\ x <= b) \/ (b <= x /\ x <= a
 
 (* executable, with the binary64 slack of approxQ *)
 Definition leQ_approx (a b : Q) : bool :=
-  Qle_bool a (b + (1 # 1000000000000) * (1 + Qabs a + Qabs b)).
+  Qle_bool a (b + ulp_slack * (1 + Qabs a + Qabs b)).
 Definition betweenb (a x b : Q) : bool :=
   (leQ_approx a x && leQ_approx x b) || (leQ_approx b x && leQ_approx x a).
 
